@@ -216,12 +216,22 @@ class Ctx:
         meta = self.path("tlc-%d" % self.nrun)
         cmd = ["java", "-XX:+UseParallelGC", "-Xmx" + heap, "-Xss64m", "-cp", TLA_JAR, "tlc2.TLC",
                "-noGenerateSpecTE", "-metadir", meta, "-config", cfg] + args + [module + ".tla"]
-        try:
-            p = subprocess.run(cmd, cwd=d, env=self.env(env, java_opts), timeout=timeout,
-                               stdout=subprocess.PIPE, stderr=subprocess.STDOUT)
-        except subprocess.TimeoutExpired:
-            raise MachineryError("TLC timeout after %ss on %s/%s" % (timeout, module, cfg))
-        out = p.stdout.decode("utf-8", "replace")
+        # TLC's own exit codes are 0 (ok), 10-14 (violations), 75/150-153 (spec/config errors).  Anything
+        # else (255, 134, 137, ...) is the JVM dying - seen once under heavy machine load - and is
+        # retried, because it says nothing about the spec or about neptune.
+        for attempt in range(3):
+            try:
+                p = subprocess.run(cmd, cwd=d, env=self.env(env, java_opts), timeout=timeout,
+                                   stdout=subprocess.PIPE, stderr=subprocess.STDOUT)
+            except subprocess.TimeoutExpired:
+                raise MachineryError("TLC timeout after %ss on %s/%s" % (timeout, module, cfg))
+            out = p.stdout.decode("utf-8", "replace")
+            if p.returncode in (0, 10, 11, 12, 13, 14, 75, 150, 151, 152, 153) or attempt == 2:
+                break
+            log("[tlc] %s/%s: JVM exited %d, retrying (%s)" % (module, cfg, p.returncode,
+                                                              out.strip().split("\n")[-1][:200] if out.strip() else ""))
+            shutil.rmtree(meta, ignore_errors=True)
+            time.sleep(3 + 5 * attempt)
         out = "\n".join(ln for ln in out.split("\n")
                         if not ln.startswith(("Parsing file", "Semantic processing", "Linting of")))
         shutil.rmtree(meta, ignore_errors=True)
